@@ -64,14 +64,23 @@ class Scratch:
 def build_harness(scratch, race=False, tags="verif", name="harness"):
     """Builds the harness against /repo's current working tree."""
     out = scratch.path(name)
+    src = HARNESS
+    if REPO != "/repo":
+        # (seed matrix: several trees are checked side by side, each from its own copy of the harness module)
+        src = scratch.path("harness-src-" + name)
+        shutil.copytree(HARNESS, src, dirs_exist_ok=True)
+        with open(os.path.join(src, "go.mod")) as f:
+            gm = f.read().replace("=> /repo", "=> " + REPO)
+        with open(os.path.join(src, "go.mod"), "w") as f:
+            f.write(gm)
     gosum = os.path.join(REPO, "go.sum")
     if os.path.exists(gosum):
-        shutil.copy(gosum, os.path.join(HARNESS, "go.sum"))
+        shutil.copy(gosum, os.path.join(src, "go.sum"))
     cmd = ["go1.26", "build", "-tags", tags, "-o", out]
     if race:
         cmd.append("-race")
     cmd.append("./cmd/harness")
-    p = subprocess.run(cmd, cwd=HARNESS, env=goenv(), capture_output=True, text=True)
+    p = subprocess.run(cmd, cwd=src, env=goenv(), capture_output=True, text=True)
     if p.returncode != 0:
         raise Broken("harness build failed:\n" + p.stdout + p.stderr)
     return out
@@ -153,7 +162,7 @@ def context_of(key):
     return share[:pos + 1]
 
 
-def replay(harness, cases_path, results_path, nworkers=NCPU, limit="5s", extra_args=(), obs_path=None, cmd="replay"):
+def replay(harness, cases_path, results_path, nworkers=NCPU, limit="5s", extra_args=(), obs_path=None, cmd="replay", pool_path=None):
     """Feeds the cases to nworkers single-goroutine harness processes (round robin).
     A worker that meets a hang exits with 3 after reporting it; the remaining cases of
     its share are given to a fresh worker."""
@@ -176,8 +185,12 @@ def replay(harness, cases_path, results_path, nworkers=NCPU, limit="5s", extra_a
                 f.writelines(share)
             fo = open(outp, "w")
             obs_args = ["-obs", outp + ".obs"] if obs_path else []
+            env = dict(os.environ)
+            if pool_path:
+                # the traffic of the engine's render-context pools, one recording per worker process (Trace_Pool.tla)
+                env["VERIF_POOL_TRACE"] = outp + ".pool"
             p = subprocess.Popen([harness, cmd, "-limit", limit] + obs_args + list(extra_args), stdin=open(inp),
-                                 stdout=fo, stderr=subprocess.PIPE)
+                                 stdout=fo, stderr=subprocess.PIPE, env=env)
             procs.append((i, share, p, fo, inp, outp))
         pending = []
         for (i, share, p, fo, inp, outp) in procs:
@@ -191,6 +204,10 @@ def replay(harness, cases_path, results_path, nworkers=NCPU, limit="5s", extra_a
             results.extend(got)
             os.unlink(inp)
             os.unlink(outp)
+            if pool_path and os.path.exists(outp + ".pool"):
+                with open(outp + ".pool") as fsrc, open(pool_path, "a") as fdst:
+                    shutil.copyfileobj(fsrc, fdst)
+                os.unlink(outp + ".pool")
             if obs_path and os.path.exists(outp + ".obs"):
                 with open(outp + ".obs") as fsrc, open(obs_path, "a") as fdst:
                     shutil.copyfileobj(fsrc, fdst)
